@@ -82,8 +82,13 @@ func (b *Buffered[T]) Front() *T {
 
 // RemoveFront removes the first value from the ring and returns the next. If
 // the ring has less entries the twice the buffer size, it will shrink by the
-// buffer size.
+// buffer size. Calling RemoveFront on an empty ring is a no-op which returns
+// nil.
 func (b *Buffered[T]) RemoveFront() *T {
+	if b.end == 0 {
+		return nil
+	}
+
 	b.ring.Value = nil
 	b.ring = b.ring.Next()
 
